@@ -62,6 +62,26 @@ type XScript struct {
 	// after MS milliseconds (0 = never), by deadline or by cancellation.  With
 	// block_on_overflow a producer that is blocked on a full queue then gives up.
 	Ctx []XCtx
+	// Park: export calls that are in flight when Shutdown is called and return
+	// only during / after it (asynchronous queues only).
+	Park *XPark
+	// Restart (persistent queue): after Shutdown a second incarnation of the
+	// same exporter is started on the same storage, drains what was left, is shut
+	// down, and the balance is required over both incarnations.
+	Restart bool
+}
+
+// XPark parks export attempts across the Shutdown call.  Attempts are numbered
+// in the order in which they reach the export function; attempt After and the
+// following ones (N of them at most) do not return until ReleaseMS milliseconds
+// after Shutdown has been called, then attempt i of them answers Outcomes[i]:
+// ok | plain (an ordinary, retryable error) | perm | partial (an error carrying
+// the first half of the items) | fate (what the items' fates say).
+type XPark struct {
+	After     int
+	N         int
+	ReleaseMS int
+	Outcomes  []string
 }
 
 // XCtx is the lifetime of one caller's context.
@@ -197,12 +217,29 @@ func genX(t *rapid.T) XScript {
 	if !s.sync() && rapid.Bool().Draw(t, "hold?") {
 		s.Hold = rapid.IntRange(1, np).Draw(t, "hold")
 	}
+	// export calls parked across Shutdown: asynchronous queues only (a caller
+	// that waits for the result would have to call Consume concurrently with
+	// Shutdown); half of the persistent cases, a third of the memory ones
+	if !s.sync() && rapid.IntRange(0, 5).Draw(t, "park?") < map[string]int{"memory": 2, "persistent": 3}[s.Queue] {
+		p := &XPark{N: rapid.IntRange(1, s.Consumers).Draw(t, "parkn")}
+		p.After = rapid.IntRange(0, max(0, min(np-p.N, 3))).Draw(t, "parkafter") // leave enough requests to park N attempts
+		p.ReleaseMS = rapid.SampledFrom([]int{0, 1, 1, 2, 4}).Draw(t, "releasems")
+		for i := 0; i < p.N; i++ {
+			p.Outcomes = append(p.Outcomes, rapid.SampledFrom(parkOutcomes).Draw(t, "parkoutcome"))
+		}
+		s.Park = p
+	}
+	if s.Queue == "persistent" {
+		s.Restart = rapid.Bool().Draw(t, "restart")
+	}
 	// callers' contexts: with block_on_overflow every call of the hold phase
 	// gets one that ends (the backend is gated, so a producer blocked on a full
-	// queue can only be released by its own context); elsewhere now and then
+	// queue can only be released by its own context), and so does every call
+	// when attempts are parked (a parked attempt occupies its consumer until
+	// Shutdown); elsewhere now and then
 	s.Ctx = make([]XCtx, np)
 	for i := range s.Ctx {
-		if (s.Block && i < s.Hold) || rapid.IntRange(0, 4).Draw(t, "ctx?") == 0 {
+		if (s.Block && (i < s.Hold || s.Park != nil)) || rapid.IntRange(0, 4).Draw(t, "ctx?") == 0 {
 			s.Ctx[i] = XCtx{MS: rapid.IntRange(1, 12).Draw(t, "ctxms"), Cancel: rapid.Bool().Draw(t, "cancel")}
 		}
 	}
@@ -210,6 +247,8 @@ func genX(t *rapid.T) XScript {
 }
 
 var cX = vt.New("C19", "exporter-balance")
+
+var parkOutcomes = []string{"ok", "plain", "plain", "perm", "perm", "partial", "fate"}
 
 var (
 	errBackendPerm  = errors.New("scripted permanent backend failure")
@@ -221,6 +260,8 @@ type attempt struct {
 	ids       []int64
 	outcome   string // ok | perm | trans | partial | throttle
 	remaining []int64
+	parked    int  // 1 + index among the parked attempts, 0 = not parked
+	across    bool // parked, and still parked when Shutdown was called
 }
 
 type backend struct {
@@ -229,10 +270,14 @@ type backend struct {
 	gate   chan struct{}
 	budget map[int64]*XFate
 	ledger []*attempt
+	// parking
+	release  chan struct{}
+	released bool
+	parked   int // attempts parked so far
 }
 
 func newBackend(s *XScript) *backend {
-	b := &backend{s: s, gate: make(chan struct{}), budget: map[int64]*XFate{}}
+	b := &backend{s: s, gate: make(chan struct{}), release: make(chan struct{}), budget: map[int64]*XFate{}}
 	for i := range s.Fates {
 		f := s.Fates[i] // copy: budgets are consumed
 		b.budget[f.ID] = &f
@@ -240,14 +285,90 @@ func newBackend(s *XScript) *backend {
 	return b
 }
 
+// releaseParked lets the parked attempts return; later attempts are not parked.
+func (b *backend) releaseParked() {
+	b.mu.Lock()
+	defer b.mu.Unlock()
+	if !b.released {
+		b.released = true
+		close(b.release)
+	}
+}
+
+// shutdownCalled marks the attempts that are parked right now: Shutdown is
+// about to be called while they are in flight.
+func (b *backend) shutdownCalled() (across int) {
+	b.mu.Lock()
+	defer b.mu.Unlock()
+	if b.released {
+		return 0
+	}
+	for _, a := range b.ledger {
+		if a.parked > 0 && a.outcome == "" {
+			a.across = true
+			across++
+		}
+	}
+	return across
+}
+
+func (b *backend) counts() (attempts, parked int) {
+	b.mu.Lock()
+	defer b.mu.Unlock()
+	return len(b.ledger), b.parked
+}
+
+func partialError(v any, err error) error {
+	switch x := v.(type) {
+	case plog.Logs:
+		return consumererror.NewLogs(err, x)
+	case ptrace.Traces:
+		return consumererror.NewTraces(err, x)
+	case pmetric.Metrics:
+		return consumererror.NewMetrics(err, x)
+	}
+	return err
+}
+
 func (b *backend) push(_ context.Context, v any) error {
 	a := &attempt{ids: idsOf(v)}
 	b.mu.Lock()
+	if p := b.s.Park; p != nil && !b.released && len(b.ledger) >= p.After && b.parked < p.N {
+		b.parked++
+		a.parked = b.parked
+	}
 	b.ledger = append(b.ledger, a)
 	b.mu.Unlock()
 	<-b.gate
+	if a.parked > 0 {
+		<-b.release
+	}
 	b.mu.Lock()
 	defer b.mu.Unlock()
+	if a.parked > 0 && a.parked <= len(b.s.Park.Outcomes) {
+		switch o := b.s.Park.Outcomes[a.parked-1]; {
+		case o == "ok":
+			a.outcome = "ok"
+			if b.s.Mutate {
+				removeItems(v, func(int64) bool { return true })
+			}
+			return nil
+		case o == "perm":
+			a.outcome = "perm"
+			return consumererror.NewPermanent(errBackendPerm)
+		case o == "partial" && len(a.ids) > 0:
+			a.outcome = "partial"
+			a.remaining = append([]int64(nil), a.ids[:(len(a.ids)+1)/2]...)
+			keep := setOf(a.remaining)
+			rem := sig.Clone(v)
+			removeItems(rem, func(id int64) bool { return !keep[id] })
+			return partialError(rem, errBackendTrans)
+		case o == "plain" || o == "partial":
+			a.outcome = "trans"
+			return errBackendTrans
+		}
+		// "fate": as the items say
+	}
 	perm, throttle := false, false
 	var failing []int64
 	for _, id := range a.ids {
@@ -279,14 +400,7 @@ func (b *backend) push(_ context.Context, v any) error {
 			keep := setOf(failing)
 			rem := sig.Clone(v)
 			removeItems(rem, func(id int64) bool { return !keep[id] })
-			switch x := rem.(type) {
-			case plog.Logs:
-				return consumererror.NewLogs(errBackendTrans, x)
-			case ptrace.Traces:
-				return consumererror.NewTraces(errBackendTrans, x)
-			case pmetric.Metrics:
-				return consumererror.NewMetrics(errBackendTrans, x)
-			}
+			return partialError(rem, errBackendTrans)
 		}
 		if throttle {
 			a.outcome = "throttle"
@@ -382,6 +496,21 @@ func runXInner(c *vt.C, s *XScript) (nontrivial bool, f *vt.Finding) {
 			}
 		}
 	}
+	if p := s.Park; p != nil {
+		if s.sync() || p.N < 1 || p.After < 0 || len(p.Outcomes) != p.N {
+			return false, vt.Failf("harness/script", "malformed park phase")
+		}
+		if s.Block {
+			for i := range s.Payloads {
+				if len(s.Ctx) == 0 || s.Ctx[i].MS <= 0 {
+					return false, vt.Failf("harness/script", "parked attempts with block_on_overflow need callers whose context ends")
+				}
+			}
+		}
+	}
+	if s.Restart && s.Queue != "persistent" {
+		return false, vt.Failf("harness/script", "a second incarnation needs a persistent queue")
+	}
 	opts, err := s.options()
 	if err != nil {
 		return false, vt.Failf("harness/config", "generated configuration rejected: %v", err)
@@ -412,6 +541,7 @@ func runXInner(c *vt.C, s *XScript) (nontrivial bool, f *vt.Finding) {
 	defer func() {
 		if !stopped {
 			openGate()
+			be.releaseParked()
 			_ = exp.Shutdown(context.Background())
 		}
 	}()
@@ -485,6 +615,39 @@ func runXInner(c *vt.C, s *XScript) (nontrivial bool, f *vt.Finding) {
 	if s.SettleMS > 0 {
 		time.Sleep(time.Duration(s.SettleMS) * time.Millisecond)
 	}
+	// parked attempts: wait (bounded; it only steers which history is observed)
+	// until the scripted number of attempts is parked or nothing moves any more,
+	// call Shutdown with them in flight and let them return ReleaseMS later -
+	// by then the retry sender and the queue have been told to stop and Shutdown
+	// is waiting for the consumers.
+	across := 0
+	if s.Park != nil {
+		quiet := 3 * time.Millisecond
+		for _, b := range []*XBatch{s.Batch, s.Legacy} {
+			if b != nil { // a flush timeout may still produce attempts
+				quiet = time.Duration(b.FlushMS+2) * time.Millisecond
+			}
+		}
+		lastN, lastMove := -1, time.Now()
+		for deadline := time.Now().Add(40 * time.Millisecond); time.Now().Before(deadline); time.Sleep(200 * time.Microsecond) {
+			n, parked := be.counts()
+			if parked >= s.Park.N {
+				break
+			}
+			if n != lastN {
+				lastN, lastMove = n, time.Now()
+			} else if time.Since(lastMove) > quiet {
+				break
+			}
+		}
+		across = be.shutdownCalled()
+		go func() {
+			if s.Park.ReleaseMS > 0 {
+				time.Sleep(time.Duration(s.Park.ReleaseMS) * time.Millisecond)
+			}
+			be.releaseParked()
+		}()
+	}
 	shutdownErr := exp.Shutdown(context.Background())
 	stopped = true
 	// Everything below happens after Shutdown returned: consumers, batcher
@@ -498,59 +661,45 @@ func runXInner(c *vt.C, s *XScript) (nontrivial bool, f *vt.Finding) {
 	be.mu.Unlock()
 
 	// --- the ledger: chains of attempts (one chain = one request handed to the send path) -----------------
-	type chain struct {
-		first    []int64
-		attempts int
-		last     string
-		partial  bool
-	}
-	var chains []*chain
-	chainOf := map[int64]int{}
-	for ai, a := range ledger {
-		if a.outcome == "" {
-			return true, vt.Failf("exporter/attempt-outlives-shutdown", "attempt %d of the export function had not returned when Shutdown returned", ai)
-		}
-		if len(a.ids) == 0 {
-			continue
-		}
-		ci, seen := chainOf[a.ids[0]]
-		if !seen {
-			ci = len(chains)
-			chains = append(chains, &chain{first: a.ids})
-			for _, id := range a.ids {
-				if _, dup := chainOf[id]; dup {
-					return true, vt.Failf("exporter/item-in-two-requests", "item %d was handed to the export function in two different requests", id)
-				}
-				chainOf[id] = ci
-			}
-		} else {
-			for _, id := range a.ids {
-				if c2, ok := chainOf[id]; !ok || c2 != ci {
-					return true, vt.Failf("exporter/item-in-two-requests", "attempt %d mixes items of different requests (item %d)", ai, id)
-				}
-			}
-		}
-		c := chains[ci]
-		c.attempts++
-		c.last = a.outcome
-		if a.outcome == "partial" {
-			c.partial = true
-		}
+	chains, chainOf, ff := buildChains(ledger)
+	if ff != nil {
+		return true, ff
 	}
 
 	// --- what is still stored -----------------------------------------------------------------------------
+	storedReqs, ff := storedRequests(rec, s.Signal)
+	if ff != nil {
+		return false, ff
+	}
 	stored := map[int64]bool{}
-	for kk, body := range rec.Snapshot() {
-		// the recording storage prefixes every key with its client's namespace ("<kind>_<id>_<name>/")
-		if _, perr := strconv.ParseUint(kk[strings.LastIndex(kk, "/")+1:], 10, 64); perr != nil {
-			continue // ri / wi / di / si
-		}
-		v, derr := sig.Decode(s.Signal, body)
-		if derr != nil {
-			return false, vt.Failf("harness/storage", "stored request %s does not decode: %v", kk, derr)
-		}
-		for _, id := range idsOf(v) {
+	for _, r := range storedReqs {
+		for _, id := range r.ids {
 			stored[id] = true
+		}
+	}
+	// A request that was handed to the send path stays in the storage only when
+	// its processing ended with a shutdown error, and the only source of that is
+	// a retry that Shutdown interrupted while it was waiting for its next
+	// attempt: retry_on_failure is on and the last attempt of (one of) the
+	// request's chains returned a retryable error.  Those retentions belong to
+	// the listed findings below (the items are booked AND stored); a request that
+	// is still stored although every attempt made for it ended with a final
+	// result (delivered, permanent error, or any error without retry) is not.
+	unexplained := ""
+	for _, r := range storedReqs {
+		attempted, explained := 0, false
+		var lasts []string
+		for _, id := range r.ids {
+			if ci, ok := chainOf[id]; ok {
+				attempted++
+				lasts = append(lasts, chains[ci].last)
+				if s.Retry != nil && retryable(chains[ci].last) {
+					explained = true
+				}
+			}
+		}
+		if attempted > 0 && !explained && unexplained == "" {
+			unexplained = fmt.Sprintf("stored request %s (%d items, %d of them handed to the export function; last outcome of their attempts: %v)", r.key, len(r.ids), attempted, lasts)
 		}
 	}
 
@@ -635,6 +784,11 @@ func runXInner(c *vt.C, s *XScript) (nontrivial bool, f *vt.Finding) {
 			okN, failN, storedFail, refusedN, sendErrReturned, storedOnly, unaccounted, shutdownErr)
 	}
 
+	if unexplained != "" {
+		return true, vt.Failf("exporter/finished-request-still-stored", "%s is still in the persistent queue after Shutdown although no retry was pending that Shutdown could have interrupted (park=%s): its items are booked under sent/send_failed AND still stored, and will be exported and booked again after a restart: %s",
+			unexplained, show(s.Park), desc())
+	}
+
 	// The statement: sent + send_failed + enqueue_failed = given - still stored.
 	// The counters are compared one by one with the ledger (which is stronger:
 	// the three equalities plus "every item is accounted for" imply the
@@ -684,6 +838,29 @@ func runXInner(c *vt.C, s *XScript) (nontrivial bool, f *vt.Finding) {
 	}
 	if lhs != rhs {
 		return true, vt.Failf("exporter/balance", "sent+send_failed+enqueue_failed = %d, given - still stored = %d: %s", lhs, rhs, desc())
+	}
+
+	// --- the second incarnation (persistent queue) -------------------------------------------------------
+	// What the first incarnation left in the storage is what the second one is
+	// "given": it must book every such item exactly once (or leave it stored), so
+	// that over both incarnations everything given is booked once - plus the
+	// items the listed findings booked although they stayed stored.
+	var second *restartResult
+	if s.Restart {
+		var ff *vt.Finding
+		second, ff = s.secondIncarnation(rec, set.ID, storedReqs)
+		if ff != nil {
+			return true, ff
+		}
+		listed := (expFailed - (failN - storedFail)) + (expEnq - refusedN)
+		if storedOKListed {
+			listed += storedOK
+		}
+		total := sent + failed + enq + second.sent + second.failed + second.enq
+		if want := int64(given) - second.stored + listed; total != want {
+			return true, vt.Failf("exporter/balance-over-restart", "over two incarnations on the same storage %d items were booked (first: sent=%d send_failed=%d enqueue_failed=%d; second: sent=%d send_failed=%d enqueue_failed=%d) for %d items given, %d still stored at the end and %d booked-while-stored by listed findings (expected %d): %s",
+				total, sent, failed, enq, second.sent, second.failed, second.enq, given, second.stored, listed, want, desc())
+		}
 	}
 
 	// --- classes and non-triviality -----------------------------------------------------------------------
@@ -750,7 +927,244 @@ func runXInner(c *vt.C, s *XScript) (nontrivial bool, f *vt.Finding) {
 	if shutdownErr != nil {
 		c.Class("shutdown-returned-error")
 	}
+	if s.Park != nil {
+		c.Class("park:scripted", fmt.Sprintf("park:in-flight-when-shutdown-was-called:%d", across))
+		for _, ch := range chains {
+			if !ch.across {
+				continue
+			}
+			o := ch.last
+			if o == "trans" {
+				o = "plain-error"
+			}
+			c.Class("park:across-shutdown/"+s.Queue, "park:outcome-after-shutdown:"+o)
+			if s.Retry == nil || !retryable(ch.last) {
+				c.Class("park:final-result-after-shutdown/" + s.Queue)
+			}
+		}
+		if across > 1 {
+			c.Class("park:several-consumers-in-flight")
+		}
+	}
+	if second != nil {
+		c.Class("restart:second-incarnation")
+		if second.attempted > 0 {
+			c.Class("restart:redelivered-stored-requests")
+		}
+		if second.stored > 0 {
+			c.Class("restart:not-drained")
+		}
+		if nStored > 0 && across > 0 {
+			c.Class("restart:after-parked-shutdown-with-stored-requests")
+		}
+	}
 	return len(kinds) >= 2 && (split || merged || retried), nil
+}
+
+// restartResult is what the second incarnation booked.
+type restartResult struct {
+	sent, failed, enq int64
+	stored            int64 // items still stored after its Shutdown
+	attempted         int64 // items it handed to the export function
+}
+
+// secondIncarnation starts the same exporter (same id, same configuration) on
+// the storage the first incarnation left behind, with a backend that answers
+// at once (permanent fates still fail, everything else is delivered), waits
+// (bounded, only steering) until the storage is drained, shuts it down and
+// checks its own balance: its "given" items are the ones found stored.
+func (s *XScript) secondIncarnation(rec *xh.Recorder, id component.ID, stored1 []storedReq) (*restartResult, *vt.Finding) {
+	s2 := *s
+	s2.Park, s2.Partial, s2.Fates = nil, false, nil
+	for _, f := range s.Fates {
+		if f.Kind == "perm" {
+			s2.Fates = append(s2.Fates, f)
+		}
+	}
+	opts, err := s2.options()
+	if err != nil {
+		return nil, vt.Failf("harness/config", "generated configuration rejected: %v", err)
+	}
+	tel := componenttest.NewTelemetry()
+	defer func() { _ = tel.Shutdown(context.Background()) }()
+	set := exportertest.NewNopSettings(xh.Type)
+	set.ID = id
+	set.TelemetrySettings = tel.NewTelemetrySettings()
+	applyTracer(&set.TelemetrySettings, s.Tracer)
+	be := newBackend(&s2)
+	close(be.gate)
+	exp, err := xh.NewExporter(s.Signal, set, be.push, opts...)
+	if err != nil {
+		return nil, vt.Failf("harness/new", "NewExporter (second incarnation): %v", err)
+	}
+	if err := exp.Start(context.Background(), xh.HostWith(rec)); err != nil {
+		return nil, vt.Failf("exporter/restart/start", "Start of the second incarnation on the storage left by the first: %v", err)
+	}
+	in1 := map[int64]bool{}
+	for _, r := range stored1 {
+		for _, id := range r.ids {
+			in1[id] = true
+		}
+	}
+	if len(in1) > 0 {
+		for deadline := time.Now().Add(150 * time.Millisecond); time.Now().Before(deadline); time.Sleep(200 * time.Microsecond) {
+			if left, ff := storedRequests(rec, s.Signal); ff != nil || len(left) == 0 {
+				break
+			}
+		}
+	}
+	shutdownErr := exp.Shutdown(context.Background())
+	final, err := collect(tel)
+	if err != nil {
+		return nil, vt.Failf("harness/collect", "%v", err)
+	}
+	be.mu.Lock()
+	ledger := append([]*attempt(nil), be.ledger...)
+	be.mu.Unlock()
+	chains, chainOf, ff := buildChains(ledger)
+	if ff != nil {
+		ff.Msg = "second incarnation: " + ff.Msg
+		return nil, ff
+	}
+	stored2, ff := storedRequests(rec, s.Signal)
+	if ff != nil {
+		return nil, ff
+	}
+	left := map[int64]bool{}
+	for _, r := range stored2 {
+		for _, id := range r.ids {
+			if !in1[id] {
+				return nil, vt.Failf("exporter/restart/foreign-item-stored", "after the second incarnation the storage holds item %d (request %s) which the first incarnation had not left there", id, r.key)
+			}
+			left[id] = true
+		}
+	}
+	res := &restartResult{stored: int64(len(left))}
+	var okN, failN, vanished int64
+	for id := range chainOf {
+		if !in1[id] {
+			return nil, vt.Failf("exporter/restart/foreign-item-exported", "the second incarnation exported item %d which was not in the storage left by the first one", id)
+		}
+	}
+	for id := range in1 {
+		ci, attempted := chainOf[id]
+		switch {
+		case attempted && left[id]:
+			// no retry can be pending here: the backend of the second incarnation only gives final answers
+			return nil, vt.Failf("exporter/finished-request-still-stored", "second incarnation: item %d was handed to the export function (last outcome %s) and its request is still stored after Shutdown (shutdown error: %v)", id, chains[ci].last, shutdownErr)
+		case attempted && chains[ci].last == "ok":
+			okN++
+		case attempted:
+			failN++
+		case left[id]:
+		default:
+			vanished++
+		}
+	}
+	res.attempted = okN + failN
+	exporterAttr := "exporter=" + id.String()
+	noun := itemNoun(s.Signal)
+	kSent, kFailed, kEnq := key("otelcol_exporter_sent_"+noun, exporterAttr), key("otelcol_exporter_send_failed_"+noun, exporterAttr), key("otelcol_exporter_enqueue_failed_"+noun, exporterAttr)
+	res.sent, res.failed, res.enq = final.sums[kSent], final.sums[kFailed], final.sums[kEnq]
+	for kk, v := range final.sums {
+		if v != 0 && kk != kSent && kk != kFailed && kk != kEnq {
+			return nil, vt.Failf("exporter/foreign-counter", "second incarnation: %s exporter moved %s to %d", s.Signal, kk, v)
+		}
+	}
+	desc := fmt.Sprintf("second incarnation of a %s exporter (persistent queue, consumers=%d legacy=%v retry=%v) on a storage holding %d requests / %d items: counters sent=%d send_failed=%d enqueue_failed=%d; ledger: %d delivered, %d failed, %d still stored, %d neither exported nor stored; shutdown error: %v",
+		s.Signal, s.Consumers, show(s.Legacy), show(s.Retry), len(stored1), len(in1), res.sent, res.failed, res.enq, okN, failN, res.stored, vanished, shutdownErr)
+	switch {
+	case res.sent != okN:
+		return nil, vt.Failf("exporter/restart/sent-mismatch", "sent counter %d, ledger %d: %s", res.sent, okN, desc)
+	case res.failed != failN:
+		return nil, vt.Failf("exporter/restart/send-failed-mismatch", "send_failed counter %d, ledger %d: %s", res.failed, failN, desc)
+	case res.enq != 0:
+		return nil, vt.Failf("exporter/restart/enqueue-failed-mismatch", "enqueue_failed counter %d although nothing was offered: %s", res.enq, desc)
+	case vanished != 0:
+		return nil, vt.Failf("exporter/restart/unaccounted-items", "%d stored items were neither handed to the export function nor left in the storage: %s", vanished, desc)
+	}
+	return res, nil
+}
+
+// chain is one request handed to the send path: the first attempt that shows
+// an item opens the chain, later attempts must carry a subset of one chain.
+type chain struct {
+	first    []int64
+	attempts int
+	last     string
+	partial  bool
+	parked   bool
+	across   bool
+}
+
+func retryable(outcome string) bool {
+	return outcome == "trans" || outcome == "throttle" || outcome == "partial"
+}
+
+func buildChains(ledger []*attempt) ([]*chain, map[int64]int, *vt.Finding) {
+	var chains []*chain
+	chainOf := map[int64]int{}
+	for ai, a := range ledger {
+		if a.outcome == "" {
+			return nil, nil, vt.Failf("exporter/attempt-outlives-shutdown", "attempt %d of the export function had not returned when Shutdown returned", ai)
+		}
+		if len(a.ids) == 0 {
+			continue
+		}
+		ci, seen := chainOf[a.ids[0]]
+		if !seen {
+			ci = len(chains)
+			chains = append(chains, &chain{first: a.ids})
+			for _, id := range a.ids {
+				if _, dup := chainOf[id]; dup {
+					return nil, nil, vt.Failf("exporter/item-in-two-requests", "item %d was handed to the export function in two different requests", id)
+				}
+				chainOf[id] = ci
+			}
+		} else {
+			for _, id := range a.ids {
+				if c2, ok := chainOf[id]; !ok || c2 != ci {
+					return nil, nil, vt.Failf("exporter/item-in-two-requests", "attempt %d mixes items of different requests (item %d)", ai, id)
+				}
+			}
+		}
+		c := chains[ci]
+		c.attempts++
+		c.last = a.outcome
+		if a.outcome == "partial" {
+			c.partial = true
+		}
+		if a.parked > 0 {
+			c.parked = true
+		}
+		if a.across {
+			c.across = true
+		}
+	}
+	return chains, chainOf, nil
+}
+
+// storedReq is one request found in the storage of the persistent queue.
+type storedReq struct {
+	key string
+	ids []int64
+}
+
+func storedRequests(rec *xh.Recorder, signal string) ([]storedReq, *vt.Finding) {
+	snapshot := rec.Snapshot()
+	var out []storedReq
+	for _, kk := range xh.Keys(snapshot) {
+		// the recording storage prefixes every key with its client's namespace ("<kind>_<id>_<name>/")
+		if _, perr := strconv.ParseUint(kk[strings.LastIndex(kk, "/")+1:], 10, 64); perr != nil {
+			continue // ri / wi / di / si
+		}
+		v, derr := sig.Decode(signal, snapshot[kk])
+		if derr != nil {
+			return nil, vt.Failf("harness/storage", "stored request %s does not decode: %v", kk, derr)
+		}
+		out = append(out, storedReq{key: kk, ids: idsOf(v)})
+	}
+	return out, nil
 }
 
 // subsetSum reports whether some subset of xs adds up to target.
@@ -781,6 +1195,11 @@ func show(v any) string {
 			return "-"
 		}
 		return fmt.Sprintf("{initial %dms max_elapsed %dms}", x.InitialMS, x.MaxElapsedMS)
+	case *XPark:
+		if x == nil {
+			return "-"
+		}
+		return fmt.Sprintf("{after %d n %d release %dms %v}", x.After, x.N, x.ReleaseMS, x.Outcomes)
 	}
 	return "?"
 }
@@ -847,4 +1266,3 @@ func TestExporterBalance(t *testing.T) {
 	cX.ReplayRepeat = 30
 	vt.Run(t, cX, vt.N(2500, 60000), genX, runX)
 }
-
